@@ -22,6 +22,8 @@ def program(style, marks, inline, noise):
     def emit(stmt, tag, indent, can_inline=True):
         w = words(tag)
         first, rest = " ".join(w[:2]), w[2]
+        if tag == "v2":
+            first = "Caveat: " + first          # a first line that looks like `key: value` but is not one of the metadata keys is text
         if style == "doc":
             if inline and can_inline:
                 L.append(f"{indent}{stmt} !{dm} {first}")
@@ -113,7 +115,7 @@ def search_attachment():
                     return {"confirmed": True, "input": {"source": text, "markers": marks}, "actual": {nm: got}, "expected": {nm: (["sharedw1", "sharedw2"], True, "7")},
                             "how": "two variables declared on one line with a shared comment that starts with metadata lines"}
         for tag, ent in ents.items():
-            got = " ".join(ent.doc_list).split()
+            got = [x for x in " ".join(ent.doc_list).split() if re.match(r"^[a-z]\w*w\d$", x)]
             if got != words(tag):
                 return {"confirmed": True, "input": {"source": text, "markers": marks}, "actual": {tag: got}, "expected": {tag: words(tag)},
                         "how": f"doc_list of entity '{tag}' after parsing; style={style}, inline={inline}, comments/blank lines between entities={noise}"}
